@@ -251,7 +251,12 @@ func TestVerifC30(t *testing.T) {
 		"{len(blob), len(stored), len+1, len-1, omitted, -1} x checksum_alg {\"\",sha256,SHA256,md5} x proxy max blob {5GiB, len-1}) x " +
 		"bucket content {exact, 1 bit flipped, truncated, extended, empty, half, read error midway, read error at end, missing} x blob " +
 		"{1 B, 26 B, 40000 B}; non-trivial = anything but 'stream, exact object, right sha256 and size'. Signature = request classes, " +
-		"storage class, HTTP status, error code."
+		"storage class, HTTP status, error code. proxy history part: ONE long-lived lfsModule x every ordered sequence of 2 (thorough 3) " +
+		"stream downloads, the bucket object being rewritten before each request to {intact, 1 bit flipped, truncated, extended, replaced by " +
+		"another valid object, missing, read error midway}: (a) the same request every time x mode {default,stream} x integrity.sha256 " +
+		"{lower, upper, padded} x checksum_alg {\"\",sha256}; (b) sequences naming >= 2 of the requests R1=(K1,P) R2=(K1,Q) R3=(K2,P) " +
+		"(shared key / shared checksum), 2 forms; x blob pair {1 B, 26 B, 40000 B}; every response is judged like a single-shot case; " +
+		"non-trivial = anything but 'R1 intact every time'; signature = form, per request (request, bucket state, status, error code)."
 	rep.Assumptions = []string{
 		"the fake s3API returns one object for the requested key; S3-reported ContentLength is the stored length",
 		"a 200 response in presign mode carries a URL, no object bytes; it is only checked for not containing the object",
@@ -262,6 +267,14 @@ func TestVerifC30(t *testing.T) {
 	if ok, err := vh.LoadReplay(&rp); ok {
 		if err != nil {
 			t.Fatalf("HARNESS-ERROR C30: replay: %v", err)
+		}
+		if rp.API == "download-history" {
+			var hc vc30HCase
+			if _, err := vh.LoadReplay(&hc); err != nil {
+				t.Fatalf("HARNESS-ERROR C30: replay: %v", err)
+			}
+			vc30History(t, rep, &hc)
+			return
 		}
 		if rp.API != "download" {
 			t.Skipf("replay belongs to another part of C30 (api=%q)", rp.API)
@@ -420,6 +433,9 @@ func TestVerifC30(t *testing.T) {
 	rep.Count("download_stream_responses_200", int64(served))
 	if served == 0 && vh.ReplayFile() == "" {
 		t.Fatalf("HARNESS-ERROR C30: no download was served; the check would be vacuous")
+	}
+	if vh.ReplayFile() == "" {
+		vc30History(t, rep, nil)
 	}
 }
 
